@@ -224,6 +224,9 @@ class World:
         self.fit_faults = {}
         self.update_faults = set()
         self.predict_faults = {}
+        self.acq_faults = {}
+        self.es_predict_calls = 0
+        self.acq_fault_now = False
         for f in scn.get("faults", []):
             seam = f["seam"]
             if seam == "target":
@@ -235,6 +238,10 @@ class World:
                 self.update_faults.add(int(f["k"]))
             elif seam == "predict":
                 self.predict_faults[int(f["k"])] = f.get("kind", "nan_mean")
+            elif seam == "acq":
+                # k-th surrogate prediction made for an evolution-strategy population: non-finite numbers
+                # for every stride-th candidate (or all of them)
+                self.acq_faults[int(f["k"])] = (f.get("kind", "nan_some"), max(1, int(f.get("stride", 3))), int(f.get("phase", 0)))
             else:
                 raise HarnessError(f"unknown fault seam {seam}")
 
@@ -663,6 +670,27 @@ def install_seams():
                 elif fk == "neg_var":
                     s2[...] = -1.0
                 return mu, s2
+        if w.es_ctx is not None and w.acq_faults:
+            w.es_predict_calls += 1
+            af = w.acq_faults.get(w.es_predict_calls)
+            if af is not None:
+                kind, stride, phase = af
+                mu, s2 = res
+                mu = np.array(mu, dtype=float, copy=True)
+                s2 = np.array(s2, dtype=float, copy=True)
+                n = mu.shape[0]
+                rows = np.ones(n, dtype=bool) if kind.endswith("_all") else (np.arange(n) % stride == phase % stride)
+                if np.any(rows):
+                    w.fired("acq:" + kind)
+                    w.ev("acq_fault", w.es_predict_calls, kind, int(rows.sum()), int(n))
+                    w.acq_fault_now = True
+                    if kind.startswith("nanvar"):
+                        s2[rows] = np.nan
+                    elif kind.startswith("negvar"):
+                        s2[rows] = -1.0
+                    else:
+                        mu[rows] = np.nan
+                    return mu, s2
         return res
 
     GP.fit = fit
@@ -884,13 +912,15 @@ def _make_acq_wrapper(orig, site):
         w = _CUR
         if w is None:
             return orig(xi, func_count, gp, sqrt_beta)
+        w.acq_fault_now = False
         res = orig(xi, func_count, gp, sqrt_beta)
+        faulted_now, w.acq_fault_now = w.acq_fault_now, False
         w.acq_calls += 1
         z, f_mu, f_s = res
         if site == "es" and w.es_ctx is not None:
             w.es_ctx["z"].append(np.array(z, dtype=float).reshape(-1).copy())
             w.es_ctx["u"].append(np.array(xi, dtype=float, copy=True))
-        if "acq" in w.monitors and sqrt_beta is None and np.size(z) > 0:
+        if "acq" in w.monitors and sqrt_beta is None and np.size(z) > 0 and not faulted_now:
             try:
                 mu, s2 = _ORIG["GP.predict"](gp, xi)
                 D = xi.shape[1]
